@@ -616,19 +616,28 @@ def judge(run, settled):
 
 
 def execute(mode, cap, reqs, cuts, script):
+    import traceback
     run = Run(mode, cap, reqs, cuts)
     lenient = script.startswith("~")  # random scripts: events that are no-ops where they stand are ignored
-    for tok in script.lstrip("~"):
-        if not run.step(tok) and not lenient:
-            raise Bounded.Skip()
-    bad = judge(run, False)
-    if bad is not None:
-        return bad
-    if "X" not in script:
-        run.settle()
-        bad = judge(run, True)
+    done = ""
+    try:
+        for tok in script.lstrip("~"):
+            if not run.step(tok) and not lenient:
+                raise Bounded.Skip()
+            done += tok
+        bad = judge(run, False)
         if bad is not None:
-            return "after settling: " + bad
+            return bad
+        if "X" not in script:
+            done += "+settle"
+            run.settle()
+            bad = judge(run, True)
+            if bad is not None:
+                return "after settling: " + bad
+    except Bounded.Skip:
+        raise
+    except Exception as e:  # noqa: BLE001 -- nothing the application or the transport does here may make the server raise
+        return "exception out of the server code after events %r: %r\n%s" % (done, e, traceback.format_exc()[-400:])
     return None
 
 
